@@ -18,6 +18,25 @@ namespace Toq.Rand
 def IsPOVM {ι κ : Type*} [Fintype ι] [DecidableEq ι] [Fintype κ] (M : κ → Matrix ι ι ℂ) : Prop :=
   (∀ i, (M i).PosSemidef) ∧ ∑ i, M i = 1
 
+/-- `Σᵢ pᵢ · Re tr(ρᵢ Mᵢ)`: probability of identifying the state of the ensemble `(p, ρ)` correctly with the measurement `M`
+(the objective of minimum-error discrimination; same formula as `Toq.C10.successProb`, here for arbitrary index types) -/
+noncomputable def successProb {ι κ : Type*} [Fintype ι] [Fintype κ] (ρ : κ → Matrix ι ι ℂ) (p : κ → ℝ)
+    (M : κ → Matrix ι ι ℂ) : ℝ :=
+  ∑ i, p i * (ρ i * M i).trace.re
+
+/-- the success probabilities attained by measurements; the optimum of minimum-error discrimination is its supremum -/
+def successValues {ι κ : Type*} [Fintype ι] [DecidableEq ι] [Fintype κ] (ρ : κ → Matrix ι ι ℂ) (p : κ → ℝ) : Set ℝ :=
+  {v | ∃ M : κ → Matrix ι ι ℂ, IsPOVM M ∧ successProb ρ p M = v}
+
+/-- the pretty good measurement built from a normaliser `S` (`S = (Σ pᵢρᵢ)^{-1/2}` in the code):
+`Gᵢ = S (pᵢρᵢ) S` -/
+noncomputable def pgmOf {ι κ : Type*} [Fintype ι] (ρ : κ → Matrix ι ι ℂ) (p : κ → ℝ) (S : Matrix ι ι ℂ) : κ → Matrix ι ι ℂ :=
+  fun i => S * ((p i : ℂ) • ρ i) * S
+
+/-- the pretty bad measurement `Bᵢ = (1 − Gᵢ)/(n − 1)` of a measurement `G` with `n` outcomes -/
+noncomputable def pbmOf {ι κ : Type*} [Fintype ι] [DecidableEq ι] [Fintype κ] (G : κ → Matrix ι ι ℂ) : κ → Matrix ι ι ℂ :=
+  fun i => ((Fintype.card κ : ℂ) - 1)⁻¹ • (1 - G i)
+
 /-- NumPy ≥ 2 `np.sign` on a complex number followed by the code's `r[r == 0] = 1` -/
 noncomputable def csign (z : ℂ) : ℂ := if z = 0 then 1 else z / (‖z‖ : ℂ)
 
